@@ -236,6 +236,15 @@ class Kernel:
     def post_exc(self, I, exc):
         I.ctx.oblige("no-exception", False, kind="post-exceptional", note="unexpected exception %r" % (exc,))
 
+    # ---- violations
+    def matches_known(self, finding, ob, res):
+        """a listed finding only suppresses the counter-models it describes; default: same obligation"""
+        return True
+
+    def native_replay(self, ob, res):
+        """run the counter-model against the real code; None when no harness exists for this kernel"""
+        return None
+
     # ---- execution
     def run_path(self, decisions):
         ctx = Ctx(self, decisions)
@@ -292,3 +301,33 @@ class Kernel:
                 raise Gap("kernel %s: more than %d paths" % (self.kid, self.max_paths))
         return obligs, {"paths": npaths, "outcomes": outcomes, "notes": sorted(set(notes)),
                         "symexec_s": round(time.time() - t0, 3)}
+
+
+class Lemma:
+    """glue lemma: pure z3 obligations over contracts (no code)"""
+    property_ids = ()
+    title = ""
+    scope = None
+    src = None
+    fn_name = None
+    bounded = None
+
+    @property
+    def kid(self):
+        return getattr(self, "name", None) or self.__class__.__name__
+
+    def obligations(self):
+        from .interp import Obligation
+        out = []
+        for nm, hyps, claim in self.lemmas():
+            out.append(Obligation(nm, "lemma", list(hyps), claim))
+        return out
+
+    def lemmas(self):
+        return []
+
+    def matches_known(self, finding, ob, res):
+        return True
+
+    def native_replay(self, ob, res):
+        return None
